@@ -37,16 +37,16 @@ let ca_of s : (z * z) list =
 
 let op_of (s : string) : ob_op =
   match split ':' s with
-  | ["R"; r; c; t; o] -> OpRegister (zi r, zi c, tok_of t, opts_of o)
-  | ["C"; r; c; t; o] -> OpCancel (zi r, zi c, tok_of t, opts_of o)
-  | ["H"; r] -> OpChange (zi r)
-  | ["I"; ca] -> OpIoStep (ca_of ca)
-  | ["A"; c; k] -> OpAck (zi c, zi k)
-  | ["T"; c; k] -> OpRst (zi c, zi k)
-  | ["F"; c; k] -> OpConFailed (zi c, zi k)
-  | ["E"; r; b] -> OpSetErr (zi r, b <> "0")
-  | ["L"; c] -> OpSessionLost (zi c)
-  | ["D"; r; ca] -> OpDeleteResource (zi r, ca_of ca)
+  | ["R"; r; c; t; o] -> ObOpRegister (zi r, zi c, tok_of t, opts_of o)
+  | ["C"; r; c; t; o] -> ObOpCancel (zi r, zi c, tok_of t, opts_of o)
+  | ["H"; r] -> ObOpChange (zi r)
+  | ["I"; ca] -> ObOpIoStep (ca_of ca)
+  | ["A"; c; k] -> ObOpAck (zi c, zi k)
+  | ["T"; c; k] -> ObOpRst (zi c, zi k)
+  | ["F"; c; k] -> ObOpConFailed (zi c, zi k)
+  | ["E"; r; b] -> ObOpSetErr (zi r, b <> "0")
+  | ["L"; c] -> ObOpSessionLost (zi c)
+  | ["D"; r; ca] -> ObOpDeleteResource (zi r, ca_of ca)
   | _ -> failwith ("bad op " ^ s)
 
 let hex l = if l = [] then "-" else hex_of_bytes l
@@ -55,11 +55,11 @@ let i = int_of_z
 
 let out_str (o : ob_out) : string =
   match o with
-  | ONotify (k, r, s, t, v, con) ->
+  | ObNotify (k, r, s, t, v, con) ->
       Printf.sprintf "N%d:%d:%d:%s:%d:%s" (i k) (i r) (i s) (hex t) (i v) (cn con)
-  | OErr (k, r, s, t, con) -> Printf.sprintf "E%d:%d:%d:%s:%s" (i k) (i r) (i s) (hex t) (cn con)
-  | OGone (r, s, t) -> Printf.sprintf "G%d:%d:%s" (i r) (i s) (hex t)
-  | ORegResp (r, s, t, v) ->
+  | ObErr (k, r, s, t, con) -> Printf.sprintf "E%d:%d:%d:%s:%s" (i k) (i r) (i s) (hex t) (cn con)
+  | ObGone (r, s, t) -> Printf.sprintf "G%d:%d:%s" (i r) (i s) (hex t)
+  | ObRegResp (r, s, t, v) ->
       Printf.sprintf "Q%d:%d:%s:%s" (i r) (i s) (hex t)
         (match v with Some v -> string_of_int (i v) | None -> "-")
 
@@ -67,10 +67,10 @@ let out_of (s : string) : ob_out =
   let body = String.sub s 1 (String.length s - 1) in
   let con x = x = "C" in
   match s.[0], split ':' body with
-  | 'N', [k; r; c; t; v; x] -> ONotify (zi k, zi r, zi c, tok_of t, zi v, con x)
-  | 'E', [k; r; c; t; x] -> OErr (zi k, zi r, zi c, tok_of t, con x)
-  | 'G', [r; c; t] -> OGone (zi r, zi c, tok_of t)
-  | 'Q', [r; c; t; v] -> ORegResp (zi r, zi c, tok_of t, (if v = "-" then None else Some (zi v)))
+  | 'N', [k; r; c; t; v; x] -> ObNotify (zi k, zi r, zi c, tok_of t, zi v, con x)
+  | 'E', [k; r; c; t; x] -> ObErr (zi k, zi r, zi c, tok_of t, con x)
+  | 'G', [r; c; t] -> ObGone (zi r, zi c, tok_of t)
+  | 'Q', [r; c; t; v] -> ObRegResp (zi r, zi c, tok_of t, (if v = "-" then None else Some (zi v)))
   | _ -> failwith ("bad out " ^ s)
 
 let b01 b = if b then "1" else "0"
@@ -78,21 +78,21 @@ let b01 b = if b then "1" else "0"
 let dump_state (st : ob_state) : string =
   let res r =
     let subs =
-      match r.rs_subs with
+      match r.obrs_subs with
       | [] -> "-"
       | l -> String.concat "," (List.map (fun x ->
-               Printf.sprintf "%d.%s.%d.%d.%s" (i x.sb_sess) (hex x.sb_tok) (i x.sb_non)
-                 (i x.sb_fail) (b01 x.sb_dirty)) l) in
-    Printf.sprintf "R%d=%d/%s/%s:%s" (i r.rs_id) (i r.rs_obs) (b01 r.rs_dirty) (b01 r.rs_pdirty) subs in
-  let refs = String.concat "," (List.map (fun c -> string_of_int (i (ob_ca_get st.st_ref (z_of_int c))))
+               Printf.sprintf "%d.%s.%d.%d.%s" (i x.obsb_sess) (hex x.obsb_tok) (i x.obsb_non)
+                 (i x.obsb_fail) (b01 x.obsb_dirty)) l) in
+    Printf.sprintf "R%d=%d/%s/%s:%s" (i r.obrs_id) (i r.obrs_obs) (b01 r.obrs_dirty) (b01 r.obrs_pdirty) subs in
+  let refs = String.concat "," (List.map (fun c -> string_of_int (i (ob_ca_get st.obst_ref (z_of_int c))))
                                   [0; 1; 2; 3]) in
-  let fl = match st.st_fl with
+  let fl = match st.obst_fl with
     | [] -> "-"
-    | l -> String.concat "," (List.map (fun f -> Printf.sprintf "%d.%d" (i f.fl_sess) (i f.fl_k)) l) in
-  Printf.sprintf "%s P%s ref=%s q=%s" (String.concat " " (List.map res st.st_res))
-    (b01 st.st_pending) refs fl
+    | l -> String.concat "," (List.map (fun f -> Printf.sprintf "%d.%d" (i f.obfl_sess) (i f.obfl_k)) l) in
+  Printf.sprintf "%s P%s ref=%s q=%s" (String.concat " " (List.map res st.obst_res))
+    (b01 st.obst_pending) refs fl
 
-let params a b c = { pr_nstart = zi a; pr_max_non = zi b; pr_max_fail = zi c }
+let params a b c = { obpr_nstart = zi a; obpr_max_non = zi b; obpr_max_fail = zi c }
 
 let () = register "c11m" (fun args ->
   match args with
@@ -116,8 +116,8 @@ let is_out s = String.length s > 1 && (match s.[0] with 'N' | 'G' | 'Q' -> true
 let () = register "c11a" (fun args ->
   match args with
   | ns :: mn :: _mf :: strict :: modes :: items ->
-      let c = { cf_modes = List.map (fun m -> zi (List.hd (split '/' m))) (split ',' modes); cf_nstart = zi ns; cf_max_non = zi mn;
-                cf_strict = (strict <> "0") } in
+      let c = { accf_modes = List.map (fun m -> zi (List.hd (split '/' m))) (split ',' modes); accf_nstart = zi ns; accf_max_non = zi mn;
+                accf_strict = (strict <> "0") } in
       let rec groups acc cur items =
         match items with
         | [] -> List.rev (match cur with None -> acc | Some (op, outs) -> (op, List.rev outs) :: acc)
